@@ -114,11 +114,15 @@ type netServer struct {
 }
 
 func newNetServer(ca tlsgen.CA, p2id map[string]uint16) *netServer {
+	return newNetServerAt(ca, p2id, "127.0.0.1:0")
+}
+
+func newNetServerAt(ca tlsgen.CA, p2id map[string]uint16, addr string) *netServer {
 	srvCert, err := ca.NewServerCertKeyPair("127.0.0.1")
 	if err != nil {
 		panic(err)
 	}
-	lsnr := tssnet.Listen("127.0.0.1:0", srvCert.Cert, srvCert.Key)
+	lsnr := tssnet.Listen(addr, srvCert.Cert, srvCert.Key)
 	in, stop := tssnet.ServiceConnections(lsnr, p2id, &sim.Logger{})
 	pool := x509.NewCertPool()
 	pool.AppendCertsFromPEM(ca.CertBytes())
@@ -185,7 +189,13 @@ func (r *rawConn) close() { r.c.Close() }
 
 // signedHandshake builds the handshake a correct client sends.
 func signedHandshake(id *netIdentity, domain string, binding []byte) tssnet.Handshake {
-	h := tssnet.Handshake{Domain: domain, TLSBinding: append([]byte(nil), binding...), Identity: append([]byte(nil), id.Cert...), Timestamp: time.Now().Unix()}
+	return signedHandshakeAt(id, domain, binding, time.Now().Unix())
+}
+
+// signedHandshakeAt: a correctly signed handshake whose signed timestamp is ts (a node whose clock is off, or a
+// handshake that was recorded some time ago).
+func signedHandshakeAt(id *netIdentity, domain string, binding []byte, ts int64) tssnet.Handshake {
+	h := tssnet.Handshake{Domain: domain, TLSBinding: append([]byte(nil), binding...), Identity: append([]byte(nil), id.Cert...), Timestamp: ts}
 	d := sha256.Sum256(h.Bytes())
 	if id.Kind == "ed25519" {
 		h.Signature = id.sign(h.Bytes())
